@@ -350,6 +350,7 @@ int main(int argc, char **argv) {
         if (n == MAXN && !v_thorough()) continue;
         if (n == 2 && v_thorough()) continue;
         esx_run(&model);
+        ESX_CYCLES(&model);
     }
     v_finish();
     return (v_sh->viol_count || rc) ? 1 : 0;
